@@ -787,7 +787,7 @@ inputs_diff(int i)
 #define DMAXCALLS 96
 static uint8_t CDUMP[3][DMAXCALLS][TDUMP_SIZE];
 static uint8_t CEMPTY[3][DMAXCALLS];
-static int g_run, g_ncalls;
+static int g_run, g_ncalls, g_midflush;
 static uint64_t
 dcall(void *fn)
 {
@@ -815,6 +815,9 @@ diff_sched(int n)
                         done++;
                         r = (IMB_JOB *) dcall((void *) m->get_completed_job);
                 }
+                if (g_midflush && i + 1 == (n + 1) / 2) /* thorough: drain the managers half way, the second half starts on used lanes */
+                        while (dcall((void *) m->flush_job))
+                                done++;
         }
         while (dcall((void *) m->flush_job))
                 done++;
@@ -871,8 +874,9 @@ run_diff_variant(long item, void *arg)
         for (int r = 0; r < 3; r++)
                 S[r] = malloc(SNAP);
         char sched[96];
+        for (g_midflush = 0; g_midflush < (tier_thorough() ? 2 : 1); g_midflush++)
         for (g_lenset = 0; g_lenset < (tier_thorough() ? 4 : 2); g_lenset++)
-        for (int n = g_diag_n ? g_diag_n : 1; n <= (g_diag_n ? g_diag_n : 17); n++) {
+        for (int n = g_diag_n ? g_diag_n : (g_midflush ? 3 : 1); n <= (g_diag_n ? g_diag_n : 17); n++) {
                 int ok = 1;
                 for (int r = 0; r < 3; r++) {
                         const int kid = r == 1 ? 22 : 20;
@@ -892,7 +896,7 @@ run_diff_variant(long item, void *arg)
                 n_scans++;
                 if (!ok)
                         continue; /* completion itself is C05's business */
-                snprintf(sched, sizeof sched, "submit %d jobs (length cycle %d), flush all; three-run differential", n, g_lenset);
+                snprintf(sched, sizeof sched, "submit %d jobs (length cycle %d)%s, flush all; three-run differential", n, g_lenset, g_midflush ? ", flush after the first half" : "");
                 /* registers right after every call that left the queue empty (the snapshot below only has the last call's) */
                 for (int c = 0; c < g_ncalls; c++) {
                         if (!CEMPTY[0][c] || !CEMPTY[1][c] || !CEMPTY[2][c])
